@@ -42,11 +42,18 @@ TunnelLetters == {"tunrefused", "tun407", "tungarbage", "tunextra"}
 \* of a response, a DATA frame on stream 0, a header block that is not HPACK - no response; "h2rstmid" (below): HEADERS 200
 \* and a part of the body, then RST_STREAM; "h2flood" (below): thousands of SETTINGS and PING frames, then a good response
 H2NetLetters == {"h2goaway", "h2rst", "h2badframe", "h2hpackbad"}
-NetLetters  == {"badstatus", "badheader", "hugeheader", "closebefore", "closeduring", "refused", "timeout", "many1xx"} \cup TlsLetters
+\* the ANNOUNCED length of the body is a number chosen by the peer.  "cl2p62" / "clmax64": Content-Length 2^62 / 2^63-1 (the
+\* largest the client's int64 holds), 25 bytes of body, then the peer hangs up: status and headers arrive, the body ends
+\* early - whoever reads it, however (drained, read into memory for postprocessors / answlog / debug log).  "cl2p63" /
+\* "cl1e20": 2^63 / 10^20, no length a client can accept: no response at all.  (TLC's integers are 32 bit: the numbers live
+\* in the renderer, scentarget.AnnouncedLength; here they are letters.)
+LenBodyLetters == {"cl2p62", "clmax64"}
+LenNetLetters  == {"cl2p63", "cl1e20"}
+NetLetters  == LenNetLetters \cup {"badstatus", "badheader", "hugeheader", "closebefore", "closeduring", "refused", "timeout", "many1xx"} \cup TlsLetters
                \cup AvailLetters \cup TunnelLetters \cup H2NetLetters
 \* chunked bodies with a chunk size that overflows / is negative / whose data is not followed by CRLF / that end inside a
 \* chunk; "gzipbad": Content-Encoding gzip on a body that is no gzip stream, client configured to decompress
-BodyLetters == {"trunc", "badchunk", "chunkhuge", "chunkneg", "chunknocrlf", "chunktrunc", "gzipbad", "h2rstmid"}
+BodyLetters == LenBodyLetters \cup {"trunc", "badchunk", "chunkhuge", "chunkneg", "chunknocrlf", "chunktrunc", "gzipbad", "h2rstmid"}
 \* "lst*": a well-formed 200 whose JSON body has, under the key `list` that later steps index, an EMPTY array / an array
 \* of one element / a string / null / an object (every other JSON-bodied letter: an array of two elements)
 ListLetters == {"lst0", "lst1", "lststr", "lstnull", "lstobj"}
@@ -210,16 +217,23 @@ Shot(i) == /\ pc[i] = "shoot" /\ poolErr = "none"
            /\ pc' = [pc EXCEPT ![i] = "idle"]
            /\ UNCHANGED <<run, taken, cur, poolErr>>
 
+\* which of the unchecked uses below the negative control switches on (all; the cfg of a negative control that is to prove ONE
+\* rule non-vacuous substitutes a singleton: CONSTANT PanicKinds <- PanicAnnounced)
+PanicKinds == {"substr", "idx", "announced", "grpccode", "tls"}
+PanicAnnounced == {"announced"}
 \* negative control: response-derived data used unchecked - Shoot panics, instance.Run recovers it into
 \* "shoot panic", the pool fails and every instance is cancelled
 ShotPanic(i) == /\ RespCanPanic /\ pc[i] = "shoot" /\ poolErr = "none"
-                /\ \/ run.gun = "http/scenario" /\ Has(run.posts, "header_substr") /\ HdrTok(cur[i]) = "short"
+                /\ \/ "substr" \in PanicKinds /\ run.gun = "http/scenario" /\ Has(run.posts, "header_substr") /\ HdrTok(cur[i]) = "short"
                    \* or: a symbolic index into a response-derived list that is empty
-                   \/ run.gun = "http/scenario" /\ run.posts \in IdxPosts /\ ListKind(cur[i]) = "empty"
+                   \/ "idx" \in PanicKinds /\ run.gun = "http/scenario" /\ run.posts \in IdxPosts /\ ListKind(cur[i]) = "empty"
+                   \* or: a buffer sized by the length the peer ANNOUNCES, where the step reads the body into memory
+                   \/ "announced" \in PanicKinds /\ run.gun \in {"http/scenario", "http2/scenario"} /\ run.posts # "none"
+                      /\ cur[i].l \in LenBodyLetters
                    \* or: a table lookup with the peer's gRPC status code
-                   \/ run.gun \in {"grpc", "grpc/scenario"} /\ cur[i].l = "code" /\ cur[i].code > 16
+                   \/ "grpccode" \in PanicKinds /\ run.gun \in {"grpc", "grpc/scenario"} /\ cur[i].l = "code" /\ cur[i].code > 16
                    \* or: every TLS alert of the peer mistaken for the documented "target has no HTTP/2"
-                   \/ run.gun \in {"http2", "http2/scenario"} /\ cur[i].l \in TlsLetters
+                   \/ "tls" \in PanicKinds /\ run.gun \in {"http2", "http2/scenario"} /\ cur[i].l \in TlsLetters
                 /\ poolErr' = "panic"
                 /\ due' = due + Len(Outcome(run.gun, cur[i], run.posts))
                 /\ pc' = [j \in 1..NInst |-> "done"]
